@@ -37,15 +37,45 @@ def c07(tier, seed):
         rng.shuffle(rest)
         ys = sorted(must + rest[:16])
     cmds = [{"op": "yuv_sweep", "ys": ys[i:i + 4]} for i in range(0, len(ys), 4)]
-    run.drive_and_validate(cmds, "TraceYuv", sample=2)
-    run.evaluations = len(ys) * 65536
+    # the same sweep on widths that are not multiples of four: the pixels left over after the last whole group of four
+    # (w % 4 = 1, 2, 3, with and without a whole group before them) are converted by code of their own in any vectorised
+    # converter; the colour of a triple must not depend on where in a row it stands
+    low = [v for v in ys if v < 16] + [v for v in ys if v > 235]
+    if tier == "thorough":
+        for i in range(0, 256, 3):
+            cmds.append({"op": "yuv_sweep", "ys": (ys + ys)[i:i + 3]})
+            cmds.append({"op": "yuv_sweep", "ys": [rng.choice(ys) for _ in range(4)] + (ys + ys)[i:i + 3]})
+        for w in (1, 2, 5, 6):
+            for _ in range(16):
+                cmds.append({"op": "yuv_sweep", "ys": [rng.choice(ys if rng.random() < 0.5 else low) for _ in range(w)]})
+    else:
+        for w in (1, 2, 3, 5, 6, 7):
+            cmds.append({"op": "yuv_sweep", "ys": [rng.choice(ys if k % 2 else low) for k in range(w)]})
+    rng.shuffle(cmds)       # and widths alternate from call to call
+    # ... also inside one driver process: every sweep is preceded, in the same process, by the conversion of a wider picture
+    # with other colours (a converter that keeps anything from call to call must not let it reach the next picture)
+    seq = []
+    for gi, c in enumerate(cmds):
+        wp = rng.choice([8, 9, 12, 16, 23])
+        hp = rng.choice([1, 2, 3])
+        cwp, chp = (wp + 1) // 2, (hp + 1) // 2
+        seq.append({"op": "yuv", "w": wp, "y": rbytes(rng, wp * hp), "cb": rbytes(rng, cwp * chp), "cr": rbytes(rng, cwp * chp), "g": gi})
+        c["g"] = gi
+        seq.append(c)
+    cmds = [c for c in seq if c["op"] == "yuv_sweep"]
+    run.drive_and_validate(seq, "TraceYuv", sample=2, group=lambda c: c["g"])
+    npx = sum(len(c["ys"]) for c in cmds) * 65536
+    run.evaluations = npx
     run.nontrivial = len(ys) * 65536
     run.notes["triples_checked_against_implementation"] = len(ys) * 65536
-    run.assumptions = ["4x1 pictures exercise the vector body of the converter; the remainder path is C08's domain"]
+    run.notes["pixels_converted"] = npx
+    run.notes["sweep_widths"] = sorted({len(c["ys"]) for c in cmds})
     return run.finish(
         rule="model: all 2^24 (Y,Cb,Cr) in MCYuv (256 states, invariant quantifies over 2^16 chroma pairs each); "
              "implementation: for each selected luma value all 65536 (Cb,Cr) pairs through yuv420_to_rgba on 4x1 "
-             "pictures (%d luma values; thorough = all 256 = the whole domain); every triple is a distinct case" % len(ys))
+             "pictures (%d luma values; thorough = all 256 = the whole domain), and again on 1, 2, 3, 5, 6 and 7 pixel wide "
+             "pictures so that left-over pixels after the last group of four are swept too (thorough: every luma value in a "
+             "left-over position); every triple is a distinct case" % len(ys))
 
 
 # =========================================================================== C08
@@ -385,12 +415,40 @@ def c02(tier, seed):
     if tier == "thorough":
         for (w, h, sc) in [(176, 144, 3), (352, 288, 2)]:
             single(pg.intra_picture(rng, sor_hdr(rng, "I", 9, w, h, 1, sc=sc)))
+    # (k) the same holds at every position of a decoder's history: runs of intra pictures on ONE decoder (equal and changing
+    #     sizes, also equal area with a different shape; distinct, repeated and wrapped temporal references; explicit
+    #     clean-ups and rejected calls in between) - an intra picture owes nothing to what was decoded before it
+    shapes = [(16, 16), (40, 24), (24, 8), (8, 24), (12, 16), (33, 17), (17, 33), (6, 4), (3, 8), (48, 16)]
+    nhist = 14 if tier == "quick" else 400
+    for i in range(nhist):
+        std = i % 5 == 4
+        ver = rng.randrange(2)
+        H.new(sor=not std)
+        w, h = rng.choice(shapes)
+        for k in range(rng.randrange(4, 8)):
+            if rng.random() < 0.3:
+                w, h = rng.choice(shapes)
+            tr = rng.choice([k, k, 0, 7, 255, rng.randrange(256)])
+            if std:
+                hdr = pg.header("plus", "I", tr=tr, q=rng.randrange(1, 32), w=4 * ((w + 3) // 4), h=4 * ((h + 3) // 4))
+            else:
+                hdr = sor_hdr(rng, "I", tr, w, h, ver)
+            if i % 2:
+                H.op("newreader")       # odd histories: one reader per call; even ones: one stream
+            H.decode(pg.intra_picture(rng, hdr, big=False, shape=rng.choice(["one", "sparse", "row", "dense"])))
+            r = rng.random()
+            if r < 0.2:
+                H.op("cleanup")
+            elif r < 0.3 and i % 2:
+                H.op("newreader")
+                H.decode(None, bytes=rng.choice(GARBAGE), why="garbage")
     npics = sum(1 for c in H.cmds if "pic" in c)
     enc = with_parse(run.encode(H.cmds))
     run.drive_and_validate(enc, "TraceDecoder", group=hkey, sample=2, also=["TraceParse"])
     run.evaluations = npics
     run.nontrivial = npics
     run.notes["intra_pictures"] = npics
+    run.notes["intra_histories"] = nhist
     return run.finish(
         rule="intra pictures as abstract values (Picture.tla): all 64 coded-block patterns x 2 Sorenson versions, all 254 "
              "INTRADC codes, all 102 Table-16 events x sign as first/middle/last event, escapes in the 7/8/11-bit forms at "
@@ -564,12 +622,17 @@ def c15(tier, seed):
                     continue
                 pics = []
                 for k, t in enumerate(ts):
+                    # extra-information bytes lengthen the header, stuffing code words lengthen the macroblock data: where a
+                    # picture ends must not depend on either
+                    pei = rbytes(rng, rng.choice([0, 0, 1, 2, 3]))
+                    stuff = rng.choice([0.0, 0.0, 0.3, 0.6])
                     if mode == "plus":
-                        hdr = pg.header("plus", t, tr=k, q=rng.randrange(1, 32), w=w, h=h)
+                        hdr = pg.header("plus", t, tr=k, q=rng.randrange(1, 32), w=w, h=h, pei=pei)
                     else:
-                        hdr = sor_hdr(rng, t, k, w, h, int(mode[-1]))
-                    pics.append(pg.intra_picture(rng, hdr, big=False, shape="sparse") if t == "I"
-                                else pg.inter_picture(rng, hdr, pt=t, big=False, shape="sparse"))
+                        hdr = sor_hdr(rng, t, k, w, h, int(mode[-1]), pei=pei)
+                    pics.append(pg.intra_picture(rng, hdr, big=False, shape="sparse", stuffing=stuff) if t == "I"
+                                else pg.inter_picture(rng, hdr, pt=t, big=False, shape="sparse", stuffing=stuff,
+                                                      mix=rng.choice([None, None, [8, 1, 0, 0, 0, 0, 0], [0, 3, 1, 1, 1, 1, 1]])))
                 for concat in (True, False):
                     H.new(sor=(mode != "plus"), maxread=rng.choice([0, 0, 0, 1, 2, 4]))
                     H.cmds[-1]["concat"] = concat
@@ -585,8 +648,10 @@ def c15(tier, seed):
         H.cmds[-1]["concat"] = True
         for k in range(rng.randrange(2, 9)):
             t = "I" if k == 0 else rng.choice(types)
-            hdr = sor_hdr(rng, t, k, w, h, ver)
-            H.decode(pg.intra_picture(rng, hdr, big=False) if t == "I" else pg.inter_picture(rng, hdr, pt=t, big=False))
+            hdr = sor_hdr(rng, t, k, w, h, ver, pei=rbytes(rng, rng.choice([0, 0, 0, 1, 2])))
+            stuff = rng.choice([0.0, 0.0, 0.2, 0.5])
+            H.decode(pg.intra_picture(rng, hdr, big=False, stuffing=stuff) if t == "I"
+                     else pg.inter_picture(rng, hdr, pt=t, big=False, stuffing=stuff, mix=rng.choice([None, None, [8, 1, 0, 0, 0, 0, 0]])))
     npics = sum(1 for c in H.cmds if c["op"] == "decode")
     enc = concat_delivery(run.encode(H.cmds))
     run.drive_and_validate(enc, "TraceDecoder", group=hkey, sample=2)
@@ -676,6 +741,30 @@ def c06(tier, seed):
         pt2 = rng.choice(["P", "D"])
         H.decode(pg.inter_picture(rng, pg.header("sor", pt2, tr=rng.choice([hdr["tr"], hdr["tr"], rng.randrange(256)]), q=rng.randrange(1, 32),
                                                  w=w, h=h, ver=ver, db=rng.randrange(2)), pt=pt2, big=False, shape="one"))
+    # standard mode: pictures whose header does not retransmit OPPTYPE (UFEP = 000) have the size of the picture before
+    # them - also when that picture inherited its size itself (chains), and after a baseline header
+    for i in range(24 if not thorough else 400):
+        H.new(sor=False)
+        if i % 6 == 5:
+            first = pg.header("base", "I", tr=rng.randrange(256), q=rng.randrange(1, 32), fmt=1)
+        else:
+            first = pg.header("plus", "I", tr=rng.randrange(256), q=rng.randrange(1, 32), w=4 * rng.randrange(1, 14), h=4 * rng.randrange(1, 10))
+        w, h = pg.dims(first)
+        H.decode(pg.intra_picture(rng, first, big=False, shape="one"))
+        for k in range(rng.randrange(2, 6)):
+            H.op("newreader")
+            hdr = pg.header("plus", "P", tr=rng.randrange(256), q=rng.randrange(1, 32), w=w, h=h, pei=rbytes(rng, rng.randrange(2)))
+            if rng.random() < 0.7:
+                hdr["ufep0"] = 1
+            elif i % 6 == 5:        # after a baseline header the size is retransmitted by a baseline header (the same size sent
+                #                     as a custom format is a different source format: not claimed either way)
+                hdr = pg.header("base", "P", tr=rng.randrange(256), q=rng.randrange(1, 32), fmt=1, pei=rbytes(rng, rng.randrange(2)))
+            elif rng.random() < 0.5 and i % 6 != 5:      # a retransmitted, different size needs a new intra picture first
+                w, h = 4 * rng.randrange(1, 14), 4 * rng.randrange(1, 10)
+                H.decode(pg.intra_picture(rng, pg.header("plus", "I", tr=rng.randrange(256), q=rng.randrange(1, 32), w=w, h=h), big=False, shape="one"))
+                H.op("newreader")
+                hdr["w"], hdr["h"] = w, h
+            H.decode(pg.inter_picture(rng, hdr, mix=[8, 2, 1, 1, 1, 0, 0], big=False, shape="one"))
     # extreme aspect ratios of the 16-bit size code (opaque mode: outcome, shapes and the reported size are checked)
     for (w, h) in [(65535, 1), (1, 65535), (65521, 16), (65520, 1), (16, 65521), (4095, 17), (32768, 2)]:
         H.new()
@@ -963,6 +1052,33 @@ def c10(tier, seed):
     for kind, bl in pat_blocks.items():
         for i in range(0, len(bl), 100):
             cmds.append({"op": "idct", "set": "support-patterns-%s" % kind, "blocks": bl[i:i + 100]})
+    # blocks of every kind MIXED in one idct_channel call (in a plane the transform runs block after block: whatever it keeps
+    # between blocks - scratch rows, skipped passes - must not leak from one block into the next).  Each block's result is
+    # judged alone, exactly as above; only the way the blocks are handed to the transform differs.
+    pool = {k: [b for b in v] for k, v in pat_blocks.items() if v}
+    pool.setdefault("zero", []).append({"k": "zero", "c": [0] * 64})
+    pool.setdefault("full", []).append({"k": "full", "c": [0] * 64})          # the all-zero block handed over as a general block
+    for nrows in range(1, 8):                                                   # general blocks whose last rows are empty
+        for _ in range(6):
+            c = [0] * 64
+            for r_ in range(nrows):
+                for u in range(8):
+                    if rng.random() < 0.6:
+                        c[8 * r_ + u] = rng.randrange(-300, 301)
+            c[8 * (nrows - 1) + rng.randrange(1, 8)] = rng.choice([-7, 9, 120])
+            if nrows > 1:
+                c[8] = c[8] or 5
+            pool["full"].append({"k": "full", "c": c})
+            ct = [c[8 * (i % 8) + i // 8] for i in range(64)]                   # and whose last columns are empty
+            if any(ct[i] for i in range(64) if i >= 8) and any(ct[i] for i in range(64) if i % 8):
+                pool["full"].append({"k": "full", "c": ct})
+    kinds_ = sorted(pool)
+    nbatch = 60 if tier == "quick" else 3000
+    for i in range(nbatch):
+        n = rng.randrange(2, 25)
+        favour = rng.sample(kinds_, k=min(len(kinds_), rng.randrange(2, 4)))
+        blocks = [rng.choice(pool[rng.choice(favour) if rng.random() < 0.7 else rng.choice(kinds_)]) for _ in range(n)]
+        cmds.append({"op": "idct", "set": "mixed-batch", "batch": True, "per_line": rng.choice([1, 2, 3, n, n]), "blocks": blocks})
     rng.shuffle(cmds)
     run.drive_and_validate(cmds, "TraceRecon", sample=1)
     # add the per-shard sums (plain addition) and let TLC take the Annex A verdict
@@ -1015,8 +1131,12 @@ def c10(tier, seed):
 def split_threads(evs):
     """events of a "threads" command -> one trace per instance (each starts with "new"), then the digests of replicas"""
     out = []
+    across = {}
     for e in evs:
         if e.get("op") != "threads":
+            out.append(e)
+            continue
+        if "evs" not in e:      # the command did not run (harness failure): TLC reports it
             out.append(e)
             continue
         for inst in e["evs"]:
@@ -1035,6 +1155,11 @@ def split_threads(evs):
         groups = [[per_tag(e["evs"][i]) for i in g if comparable(e["evs"][i])] for g in e["groups"]]
         groups = [g for g in groups if len(g) >= 2]
         out.append({"op": "replicas", "groups": groups, "mode": e.get("mode", ""), "ci": e.get("ci"), "ret": e["ret"]})
+        if "xkey" in e:         # the same history run in different processes / after different predecessors
+            across.setdefault(e["xkey"], []).append((per_tag(e["evs"][e["xinst"]]), e.get("ci")))
+    for k, lst in across.items():
+        if len(lst) >= 2:
+            out.append({"op": "replicas", "groups": [[d for d, _ in lst]], "mode": "across-processes", "ci": lst[-1][1], "ret": "ok"})
     return out
 
 
@@ -1122,8 +1247,68 @@ def c17(tier, seed):
         groups = [[k for k in range(16) if (k % 4 if k % 4 < 3 else 0) == gsel] for gsel in range(3)]
         groups = [[k for k in range(16) if (k % 4) in (0, 1, 3)], [k for k in range(16) if k % 4 == 2]]
         cmds.append({"op": "threads", "insts": insts, "groups": groups, "mode": "free-running", "h": len(cmds)})
+    # (d) what one decoder produces must not depend on what OTHER decoders of the same process were fed before it, in any mode
+    #     (state kept per process or per thread and keyed too coarsely - a memo, a scratch buffer - would make it so): every
+    #     stream X is decoded (1) alone in a fresh process and (2) in a fresh process after a different stream Y, on one thread
+    #     and on two; the digests of X must agree.  Streams: Sorenson v0 / v1, standard mode with custom formats of different
+    #     Annex D size classes with and without unrestricted motion vectors (long vectors), and baseline headers.
+    def stream(kind):
+        pics = []
+        if kind[0] == "sor":
+            _, w, h, ver = kind
+            pics = [pg.intra_picture(rng, sor_hdr(rng, "I", 0, w, h, ver), big=False),
+                    pg.inter_picture(rng, sor_hdr(rng, "P", 1, w, h, ver), big=False),
+                    pg.inter_picture(rng, sor_hdr(rng, "D", 2, w, h, ver), pt="D", big=False)]
+        elif kind[0] == "base":
+            pics = [pg.intra_picture(rng, pg.header("base", "I", tr=0, q=rng.randrange(1, 32), fmt=1), big=False, shape="one"),
+                    pg.inter_picture(rng, pg.header("base", "P", tr=1, q=rng.randrange(1, 32), fmt=1), big=False, shape="one")]
+        else:
+            _, w, h, uui = kind
+            pics = [pg.intra_picture(rng, pg.header("plus", "I", tr=0, q=rng.randrange(1, 32), w=w, h=h), big=False, shape="one")]
+            for k in range(2):
+                hdr = pg.header("plus", "P", tr=k + 1, q=rng.randrange(1, 32), w=w, h=h)
+                p = pg.inter_picture(rng, hdr, big=False, shape="one", mix=[1, 5, 1, 3, 0, 0, 1])
+                if uui:
+                    p["umv"], p["uui"] = 1, uui
+                    for m in p["mbs"]:
+                        if m["k"] == "mb":
+                            m["mvd"] = [[rng.choice([0, 3, -35, 35, 70, -70, 100, -130, 200, -260]), rng.choice([0, -3, 35, -70, 70, 130, -200])]
+                                        for _ in m["mvd"]]
+                pics.append(p)
+        return pics
+    kinds_ = [("sor", 16, 16, 0), ("sor", 33, 17, 1), ("sor", 48, 32, 1), ("base",), ("plus", 16, 16, 0), ("plus", 48, 32, 0),
+              ("plus", 16, 16, 1), ("plus", 16, 304, 1), ("plus", 368, 16, 1), ("plus", 16, 16, 2), ("plus", 16, 304, 2), ("plus", 32, 592, 1)]
+    sflat = []
+    for si, kind in enumerate(kinds_):
+        for k, pic in enumerate(stream(kind)):
+            sflat.append({"op": "x", "pic": pic, "opaque": True, "si": si, "k": k})
+    senc = run.encode(sflat)
+
+    def stream_cmds(si):
+        out = [{"op": "new", "d": 0, "sor": kinds_[si][0] == "sor", "tag": -1}]
+        for c in senc:
+            if c["si"] == si:
+                out.append({"op": "newreader", "d": 0, "tag": c["k"]})
+                out.append({"op": "decode", "d": 0, "bytes": c["bytes"], "opaque": True, "planes": True, "why": "stream-" + kinds_[si][0], "tag": c["k"]})
+        return out
+    pairs = [(x, y) for x in range(len(kinds_)) for y in range(len(kinds_)) if x != y]
+    rng.shuffle(pairs)
+    umvs = [i for i, k in enumerate(kinds_) if k[0] == "plus" and k[3]]
+    must = [(x, y) for x in umvs for y in umvs if x != y]
+    sel_pairs = must + [pr for pr in pairs if pr not in must][:(20 if tier == "quick" else len(pairs))]
+    for xi, (x, y) in enumerate(sel_pairs):
+        cx, cy = stream_cmds(x), stream_cmds(y)
+        key = "x%d" % xi
+        cmds.append({"op": "threads", "insts": [cx], "order": [0] * len(cx), "single": True, "fresh": True, "groups": [],
+                     "mode": "alone", "xkey": key, "xinst": 0, "h": len(cmds)})
+        cmds.append({"op": "threads", "insts": [cy, cx], "order": [0] * len(cy) + [1] * len(cx), "single": True, "fresh": True, "groups": [],
+                     "mode": "after-another-stream", "xkey": key, "xinst": 1, "h": len(cmds)})
+        cmds.append({"op": "threads", "insts": [cy, cx], "order": [0] * len(cy) + [1] * len(cx), "fresh": True, "groups": [],
+                     "mode": "after-another-stream-two-threads", "xkey": key, "xinst": 1, "h": len(cmds)})
+    run.notes["cross_process_pairs"] = len(sel_pairs)
     # fresh processes between repetitions: one driver process per shard, many shards
-    run.drive_and_validate(cmds, "TraceDecoder", nshards=32 if tier == "quick" else 64, post_fn=split_threads, sample=1)
+    run.drive_and_validate(cmds, "TraceDecoder", nshards=32 if tier == "quick" else 64, post_fn=split_threads, sample=1,
+                           group=lambda c: c.get("xkey", c["h"]))
     run.evaluations = len(cmds)
     run.nontrivial = len(sel) + 1
     run.notes["interleavings_forced"] = len(sel)
@@ -1267,8 +1452,24 @@ def c01(tier, seed):
                 for m in p["mbs"]:
                     m["mvd"] = [[d, d] for _ in m["mvd"]]
                 attacks.append({"op": "x", "pic": p, "tag": "vectors-far-outside", "opaque": True, "w": 48, "h": 32, "ver": ver, "sor": True})
-        enc = run.encode(base + attacks)
-        encbase, encatt = enc[:len(base)], enc[len(base):]
+        # Annex D in standard mode: PLUSPTYPE header with UMV, differentials in the Table D.3 code up to +-4095 half-pels,
+        # chained along a macroblock row so that predictors accumulate (limited and unlimited UUI, one and four vectors)
+        umv = []
+        for (w, h) in [(48, 32), (160, 16), (16, 16)]:
+            umv.append({"op": "x", "pic": pg.intra_picture(rng, pg.header("plus", "I", tr=0, q=rng.randrange(1, 32), w=w, h=h), big=False),
+                        "tag": "umv-I", "opaque": True, "w": w, "h": h})
+            for uui in (1, 2):
+                for kinds in ([0], [2], [0, 2, 5]):
+                    for d in ([4095, 4095], [-4095, -4095], [4095, -4095], [2047, 1], [-1024, 513], [63, -64], [31, -32], None):
+                        hdr = pg.header("plus", "P", tr=1, q=rng.randrange(1, 32), w=w, h=h)
+                        hdr["umv"], hdr["uui"] = 1, uui
+                        p = dict(hdr)
+                        p["mbs"] = [pg.coded_mb(rng, rng.choice(kinds), False, mvd=None, big=False) for _ in range(pg.nmb(p))]
+                        for m in p["mbs"]:
+                            m["mvd"] = [(d if d is not None else [rng.randrange(-4095, 4096), rng.randrange(-4095, 4096)]) for _ in m["mvd"]]
+                        umv.append({"op": "x", "pic": p, "tag": "umv-extreme-vectors", "opaque": True, "w": w, "h": h})
+        enc = run.encode(base + attacks + umv)
+        encbase, encatt, encumv = enc[:len(base)], enc[len(base):len(base) + len(attacks)], enc[len(base) + len(attacks):]
         byt = lambda tag, w, h, ver, sor: [c["bytes"] for c in encbase if c["tag"] == tag and c["w"] == w and c["h"] == h and c["ver"] == ver and c["sor"] == sor]
         # ---- histories of opaque calls
         H = Hist()
@@ -1297,6 +1498,19 @@ def c01(tier, seed):
                         # and something valid afterwards: the decoder must still be usable
                         cand = byt("P", a["w"], a["h"], a["ver"], True)
                         call(rng.choice(cand), "valid-P-after")
+        # (a2) Annex D attacks: I, then the UMV picture (twice: the second is predicted from whatever the first left), then a plain P
+        for a in encumv:
+            if a["tag"] != "umv-extreme-vectors":
+                continue
+            ipic = [c["bytes"] for c in encumv if c["tag"] == "umv-I" and c["w"] == a["w"] and c["h"] == a["h"]][0]
+            for pre in ([], ["I"]):
+                H.new(sor=False)
+                if pre:
+                    call(ipic, "valid-I")
+                call(a["bytes"], a["tag"])
+                call(a["bytes"], a["tag"])
+                cand = byt("P", 16, 16, 0, False)
+                call(rng.choice(cand), "valid-P-after")
         # (b) truncation of valid pictures at every byte, in histories
         for c in encbase:
             if c["w"] * c["h"] > 32 * 32 and tier == "quick":
@@ -1338,6 +1552,45 @@ def c01(tier, seed):
                 call(c["bytes"][:k] + rbytes(rng, n), "valid-header-then-random")
             else:
                 call(b if r_ < 0.93 else rbytes(rng, n), "random-bytes")
+        # (e) every header the clause-5.1 model can express (PictureHeader.tla: all OPPTYPE / MPPTYPE modes, custom clock
+        #     and extended TR, PAR, UUI, SSS, layers, RPS fields, PB types, UFEP = 000 inheritance) in front of REAL
+        #     macroblock data taken from the pictures above (bits after the header), in histories
+        from . import hdrgen
+        tails = []
+        for c in encumv + [c for c in encbase if not c["sor"]]:
+            bits = [(byte >> (7 - k)) & 1 for byte in c["bytes"] for k in range(8)][c["hbits"]:c["nbits"]]
+            bits += [0] * ((8 - len(bits) % 8) % 8)
+            tb = [sum(bits[i + k] << (7 - k) for k in range(8)) for i in range(0, len(bits), 8)]
+            p = c["pic"]
+            tails.append({"bytes": tb, "w": p["w"], "h": p["h"], "intra": p["pt"] == "I", "umv": p.get("umv", 0), "uui": p.get("uui", 1)})
+        hcmds = []
+        nfull = 600 * nrep
+        for i in range(nfull):
+            t = rng.choice(tails)
+            h = hdrgen.rand_plus(rng, ufep=1 if rng.random() < 0.8 else 0)
+            h["oflags"] = [1 if rng.random() < 0.12 else 0 for _ in range(10)]
+            h["par"] = rng.choice([1, 2, 3, 4, 5, 15])
+            if rng.random() < 0.85:     # a header that matches the macroblock data: decoding goes all the way
+                h.update(ofmt=6, pwi=t["w"] // 4 - 1, phi=t["h"] // 4, mtype=0 if t["intra"] else 1, uui=1 if t["uui"] == 1 else 0)
+                h["oflags"][0] = t["umv"]
+                h["q"] = rng.randrange(1, 32)
+                if rng.random() < 0.7:
+                    h["oflags"][9] = 0          # modified quantization is rejected at the first coded macroblock
+            prevopts = [o for o in hdrgen.OPP if rng.random() < 0.2]
+            hcmds.append({"op": "x", "hdr": h, "scal": rng.random() < 0.25, "prevopts": prevopts,
+                          "tail": t["bytes"] + (rbytes(rng, rng.randrange(0, 12)) if rng.random() < 0.3 else []), "intra": t["intra"],
+                          "w": t["w"], "h": t["h"]})
+        enchdr = encode_headers(run, hcmds)
+        for i in range(0, len(enchdr), 3):
+            grp = enchdr[i:i + 3]
+            H.new(sor=False, scal=grp[0]["scal"])
+            if rng.random() < 0.7:
+                cand = [c["bytes"] for c in encumv if c["tag"] == "umv-I" and c["w"] == grp[0]["w"] and c["h"] == grp[0]["h"]] or \
+                       byt("I", grp[0]["w"], grp[0]["h"], 0, False)
+                if cand:
+                    call(cand[0], "valid-I")
+            for c in grp:
+                call(c["bytes"], "full-header-" + ("ufep0" if c["hdr"]["ufep"] == 0 else "I" if c["intra"] else "P"))
         run.drive_and_validate(H.cmds, "TraceDecoder", group=hkey, sample=3, stat_fn=decode_stat, timeout_ms=10000,
                                resync=lambda c: c["op"] == "new")
         nhist += H.n
